@@ -97,3 +97,15 @@ Theorem C12_nonzero_end_to_end : forall sh data, sh <> [] -> length data = size 
     ndx_nonzero sh data = nonzero_coords sh data (all_idx sh).
 Proof. exact nonzero_end_to_end. Qed.
 Print Assumptions C12_nonzero_end_to_end.
+
+(* unique counts, any length: one count per unique value, each the number of positions holding that value, and together
+   they add up to the size of the input *)
+From ND Require Import Ndx.UniqueCounts.
+Theorem C12_unique_counts_add_up : forall l,
+  total (u_counts (ndx_unique l)) = length l /\ length (u_counts (ndx_unique l)) = length (u_values (ndx_unique l)).
+Proof. exact unique_counts_total. Qed.
+Theorem C12_unique_counts_are_multiplicities : forall l k, (k < length (u_values (ndx_unique l)))%nat ->
+  nth k (u_counts (ndx_unique l)) 0%nat = length (filter (fun x => (x =? nth k (u_values (ndx_unique l)) 0%Z)%Z) l).
+Proof. exact unique_counts_spec. Qed.
+Print Assumptions C12_unique_counts_add_up.
+Print Assumptions C12_unique_counts_are_multiplicities.
